@@ -79,11 +79,22 @@ func program(m ae.Metastore, tag string, keyLens []int, afterOp func()) {
 			vx.Reach(tag + ".stored")
 		case 1: // Load
 			c := vx.Timestamp("lc")
+			// readfaults=1: fetching the row may fail after the statement was accepted; a failed read is an error -
+			// an answer given without an error is held to the same obligations as ever (a stored record is never
+			// reported absent)
+			f0 := vx.Faulted("read", "sql.fetch")
+			vx.FaultBudget("read", vx.Param("readfaults"))
 			got, err := m.Load(env.Ctx, id, c)
+			vx.FaultBudget("read", 0)
+			faulted := vx.Faulted("read", "sql.fetch") > f0
 			if err != nil {
 				vx.Tag("load_error", err.Error())
 			}
-			vx.Assert(tag+".load_no_error", err == nil)
+			vx.Assert(tag+".load_no_error", err == nil || faulted)
+			if err != nil {
+				vx.Reach(tag + ".read_fault_reported")
+				continue
+			}
 			r := find(id, c)
 			if r == nil {
 				vx.Assert(tag+".load_absent_is_nil", got == nil)
@@ -96,11 +107,19 @@ func program(m ae.Metastore, tag string, keyLens []int, afterOp func()) {
 				}
 			}
 		case 2: // LoadLatest
+			f0 := vx.Faulted("read", "sql.fetch")
+			vx.FaultBudget("read", vx.Param("readfaults"))
 			got, err := m.LoadLatest(env.Ctx, id)
+			vx.FaultBudget("read", 0)
+			faulted := vx.Faulted("read", "sql.fetch") > f0
 			if err != nil {
 				vx.Tag("latest_error", err.Error())
 			}
-			vx.Assert(tag+".latest_no_error", err == nil)
+			vx.Assert(tag+".latest_no_error", err == nil || faulted)
+			if err != nil {
+				vx.Reach(tag + ".read_fault_reported")
+				continue
+			}
 			var best *row
 			for j := range table {
 				if table[j].id == id && (best == nil || table[j].created > best.created) {
